@@ -3,6 +3,8 @@
 -/
 import VotelibProofs.Lemmas.ConvertImages
 import VotelibProofs.Lemmas.ConvertCondorcet
+import Mathlib.Data.Rat.Floor
+import Mathlib.Algebra.Order.Floor.Ring
 namespace VL.Convert
 open VL
 
@@ -236,6 +238,7 @@ theorem toFun_dictAdditive (k : κ) : DictAdditive (fun d : Dict κ => toFun d k
 theorem total_dictAdditive : DictAdditive (fun d : Dict κ => total d) :=
   ⟨by simp [total], fun a b => total_addDictToDict a b⟩
 
+omit [DecidableEq κ] in
 theorem toFun_constituencyTotals {p : List (δ × Dict κ)} (h : (dkeys p).Nodup) (d : δ) :
     toFun (constituencyTotals p) d = nsum p d total := by
   unfold constituencyTotals
@@ -407,5 +410,101 @@ theorem subsetRankedOne_items (S : List Cand) (b : Ballot) :
   rw [subsetRankedOne_eq, List.mem_filterMap] at hit
   obtain ⟨it0, _, h⟩ := hit
   exact subItem_nonempty S it0 it h
+
+/-! ### RoundedVotes -/
+
+theorem roundedVotes_eq {κ : Type} [DecidableEq κ] (k : Nat) {p : Dict κ} (h : (dkeys p).Nodup) :
+    roundedVotes k p = p.map (fun kv => (kv.1, roundHalfUp k kv.2)) := by
+  unfold roundedVotes
+  apply dictOf_of_nodup
+  have : dkeys (p.map (fun kv => (kv.1, roundHalfUp k kv.2))) = dkeys p := by
+    unfold dkeys; rw [List.map_map]; rfl
+  rw [this]; exact h
+
+/-- the rounded value lies on the grid `10^-decimals` and within half a grid step of the exact value;
+    exact ties go away from zero -/
+theorem roundHalfUp_spec (d : Nat) (x : Rat) :
+    ∃ z : Int, roundHalfUp d x = (z : Rat) / ((10 ^ d : Nat) : Rat) ∧
+      |x * ((10 ^ d : Nat) : Rat) - (z : Rat)| ≤ 1 / 2 ∧
+      (|x * ((10 ^ d : Nat) : Rat) - (z : Rat)| = 1 / 2 → |x * ((10 ^ d : Nat) : Rat)| < |(z : Rat)|) := by
+  unfold roundHalfUp
+  simp only
+  set s := x * ((10 ^ d : Nat) : Rat) with hs
+  by_cases h0 : 0 ≤ s
+  · rw [if_pos h0]
+    refine ⟨(s + 1 / 2).floor, rfl, ?_, ?_⟩
+    · have h1 := Int.floor_le (s + 1 / 2)
+      have h2 := Int.lt_floor_add_one (s + 1 / 2)
+      have e : Int.floor (s + 1 / 2) = (s + 1 / 2).floor := rfl
+      rw [e] at h1 h2
+      rw [abs_le]; constructor <;> linarith
+    · intro ht
+      have h1 := Int.floor_le (s + 1 / 2)
+      have h2 := Int.lt_floor_add_one (s + 1 / 2)
+      have e : Int.floor (s + 1 / 2) = (s + 1 / 2).floor := rfl
+      rw [e] at h1 h2
+      have hz : s < ((s + 1 / 2).floor : Rat) := by
+        rcases abs_eq (by norm_num : (0 : Rat) ≤ 1 / 2) |>.1 ht with h | h <;> linarith
+      rw [abs_of_nonneg h0, abs_of_nonneg (by linarith)]
+      exact hz
+  · rw [if_neg h0]
+    push Not at h0
+    refine ⟨-((-s + 1 / 2).floor), by push_cast; ring, ?_, ?_⟩
+    · have h1 := Int.floor_le (-s + 1 / 2)
+      have h2 := Int.lt_floor_add_one (-s + 1 / 2)
+      have e : Int.floor (-s + 1 / 2) = (-s + 1 / 2).floor := rfl
+      rw [e] at h1 h2
+      push_cast
+      rw [abs_le]; constructor <;> linarith
+    · intro ht
+      have h1 := Int.floor_le (-s + 1 / 2)
+      have h2 := Int.lt_floor_add_one (-s + 1 / 2)
+      have e : Int.floor (-s + 1 / 2) = (-s + 1 / 2).floor := rfl
+      rw [e] at h1 h2
+      push_cast at ht ⊢
+      have hz : -s < ((-s + 1 / 2).floor : Rat) := by
+        rcases abs_eq (by norm_num : (0 : Rat) ≤ 1 / 2) |>.1 ht with h | h <;> linarith
+      rw [abs_of_neg h0, abs_neg, abs_of_nonneg (by linarith)]
+      exact hz
+
+/-! ### IndividualToPartyVotes -/
+
+/-- the party key of a candidate where the mapper does not raise; `none` = ignored -/
+def mapKey (aff : Cand → Option Nat) (ind : Independents) (c : Cand) : Option PKey :=
+  match mapParty aff ind c with
+  | .ok r => r
+  | .error _ => none
+
+theorem mapParty_ok (aff : Cand → Option Nat) (ind : Independents) (c : Cand)
+    (h : ind = .error → (aff c).isSome) : mapParty aff ind c = .ok (mapKey aff ind c) := by
+  unfold mapKey mapParty
+  cases ha : aff c with
+  | some party => rfl
+  | none =>
+    cases ind with
+    | error => simp [ha] at h
+    | keep => rfl
+    | aggregate => rfl
+    | ignore => rfl
+
+theorem individualToParty_eq_ok (aff : Cand → Option Nat) (ind : Independents) (p : Dict Cand)
+    (h : ind = .error → ∀ cw ∈ p, (aff cw.1).isSome) :
+    individualToParty aff ind p = .ok (accumOne (mapKey aff ind) p) := by
+  unfold individualToParty accumOne
+  apply foldlM_ok_of_step
+  intro s cw hcw
+  rw [mapParty_ok aff ind cw.1 (fun he => h he cw hcw)]
+  cases mapKey aff ind cw.1 <;> rfl
+
+theorem individualToParty_eq_error (aff : Cand → Option Nat) (p : Dict Cand)
+    (h : ∃ cw ∈ p, aff cw.1 = none) : individualToParty aff .error p = .error .candidateError := by
+  unfold individualToParty
+  apply foldlM_error_of_step
+  · intro s cw _
+    cases ha : aff cw.1 with
+    | some party => left; exact ⟨addTo s (.party party) cw.2, by simp [mapParty, ha]⟩
+    | none => right; simp [mapParty, ha]
+  · obtain ⟨cw, hcw, ha⟩ := h
+    exact ⟨cw, hcw, fun s => by simp [mapParty, ha]⟩
 
 end VL.Convert
